@@ -299,7 +299,37 @@ pub fn map_segment<Ty: EdgeType + Clone, S: BuildHasher + Default + Clone>(rng: 
         } else if r < 85 {
             g.clear();
             (json!({"op":"clear"}), rs("ok"))
-        } else if r < 90 {
+        } else if r < 88 {
+            // C17/C03: a GraphMap loaded from a Graph (directly, or through its serde wire format, which is a Graph):
+            // repeated node weights and parallel edges (for undirected also a-b plus b-a) must collapse
+            let nn = 1 + rng.below(5);
+            let nodes: Vec<i32> = (0..nn).map(|_| key(rng)).collect();
+            let mut h: petgraph::Graph<i32, i32, Ty, u32> = petgraph::Graph::with_capacity(0, 0);
+            let ids: Vec<_> = nodes.iter().map(|&k| h.add_node(k)).collect();
+            let mut edges = vec![];
+            for _ in 0..rng.below(7) {
+                let (a, b) = if !edges.is_empty() && rng.chance(1, 3) {
+                    let (a, b, _): (usize, usize, i32) = edges[rng.below(edges.len())];
+                    if rng.chance(1, 2) { (a, b) } else { (b, a) }
+                } else { (rng.below(nn), rng.below(nn)) };
+                let w = next();
+                h.add_edge(ids[a], ids[b], w);
+                edges.push((a, b, w));
+            }
+            let via = *rng.pick(&["from_graph", "bincode", "json"]);
+            let e = json!({"op":"load","via":via,"nodes":nodes,"edges":edges.iter().map(|&(a, b, w)| json!([nodes[a], nodes[b], w])).collect::<Vec<_>>()});
+            log.about_to(&e);
+            let loaded: Result<Result<GraphMap<i32, i32, Ty, S>, String>, ()> = guard(|| match via {
+                "from_graph" => Ok(GraphMap::from_graph(h.clone())),
+                "bincode" => bincode::deserialize(&bincode::serialize(&h).unwrap()).map_err(|e| e.to_string()),
+                _ => serde_json::from_str(&serde_json::to_string(&h).unwrap()).map_err(|e| e.to_string()),
+            });
+            match loaded {
+                Ok(Ok(m)) => { g = m; (e, rs("ok")) }
+                Ok(Err(msg)) => (e, json!(["err_s", msg])),
+                Err(()) => (e, json!(["panic"])),
+            }
+        } else if r < 91 {
             // clone, and GraphMap -> Graph -> GraphMap: same graph
             if rng.chance(1, 2) { g = g.clone(); (json!({"op":"noeffect","which":"clone"}), rs("ok")) }
             else {
